@@ -708,6 +708,16 @@ static int drv_watch(int argc, char** argv) {
         std::string f = dd + "/" + op.get("file", "").asString();
         if (o == "write") {
           write_file(f, op["text"].asString());
+        } else if (o == "write_keepopen") {
+          // a writer that rewrites the file in place and keeps its descriptor (an agent holding the file open): there is
+          // no close event to wait for; the descriptor stays open until the process ends
+          int fd = ::open(f.c_str(), O_WRONLY | O_CREAT | O_TRUNC, 0644);
+          std::string text = op["text"].asString();
+          (void)!::syscall(SYS_write, fd, text.data(), text.size());
+          static std::vector<int> kept;
+          kept.push_back(fd);
+        } else if (o == "truncate") {
+          (void)!::truncate(f.c_str(), 0);
         } else if (o == "write_chunks") {
           // the file holds partial JSON between the chunks
           std::string text = op["text"].asString();
